@@ -379,6 +379,9 @@ func (e *Engine) evalObject(st *State, obj types.Object) (Val, error) {
 		if c := e.errConst(g); c != "" {
 			return Val{K: KIface, T: c, Ty: o.Type(), NonNil: true}, nil
 		}
+		if c, ok := e.globalConst(g); ok {
+			return st.constVal(c), nil
+		}
 		return st.load(e.globalAddr(g), o.Type(), ""), nil
 	}
 	return Val{}, fmt.Errorf("unsupported object %s", obj.Name())
@@ -582,7 +585,12 @@ func (e *Engine) evalAddr(st *State, env *cenv, x *CExpr) (Val, error) {
 			return Val{}, err
 		}
 		if b.K != KAddr {
-			return Val{}, fmt.Errorf("& of field of non-pointer")
+			// a struct-typed lvalue (global variable, nested struct field): take its address instead
+			if ab, err2 := e.evalAddr(st, env, x.Args[0]); err2 == nil && ab.K == KAddr {
+				b = ab
+			} else {
+				return Val{}, fmt.Errorf("& of field of non-pointer")
+			}
 		}
 		n := namedOf(b.Ty)
 		var pkg *types.Package
@@ -626,6 +634,7 @@ func (e *Engine) evalAddr(st *State, env *cenv, x *CExpr) (Val, error) {
 			if o, ok := p.Scope().Lookup(x.Name).(*types.Var); ok {
 				if sp := e.prog.Package(o.Pkg()); sp != nil {
 					if g, ok := sp.Members[o.Name()].(*ssa.Global); ok {
+						st.typeFact(e.globalAddr(g), g.Type())
 						return Val{K: KAddr, T: e.globalAddr(g), Ty: g.Type(), NonNil: true}, nil
 					}
 				}
